@@ -117,11 +117,17 @@ func vpHostListW(n, affix int) []string {
 	var hs []string
 	for i := 0; i < n; i++ {
 		is := vpItoa(i)
-		h := vpString("pre"+is, affix)
+		pre, suf := vpString("pre"+is, affix), vpString("suf"+is, affix)
+		for _, x := range []string{pre, suf} {
+			for j := 0; j < len(x); j++ {
+				vpAssume(vpAnd(x[j] > 0x20, x[j] < 0x7f)) // printable ASCII around the placeholder
+			}
+		}
+		h := pre
 		if vpBool("ph" + is) {
 			h += "{{ preferred_username }}"
 		}
-		h += vpString("suf"+is, affix)
+		h += suf
 		hs = append(hs, h)
 	}
 	return hs
@@ -151,7 +157,7 @@ func vpInList(l []string, s string) bool {
 //vp:set s 1 1
 //vp:set budget 900 2400
 //vp:set maxpaths 200000 1500000
-//vp:bounds session authenticated or not; selection mode in {roundrobin, signed, unsigned, any, other}; 1..hosts entries prefix++[placeholder]++suffix (affixes <= affix bytes); host query parameter absent, or one or two values of <= s+1 bytes each; query-token verdict arbitrary (verified in VP_C12_queryinfo) with subject <= s+1 bytes; user name of <= s+1 bytes with or without '@'; domain splitting, user-name template, no-username switches; token generators succeeding/failing
+//vp:bounds session authenticated or not; selection mode in {roundrobin, signed, unsigned, any, other}; 1..hosts entries prefix++[placeholder]++suffix (affixes <= affix bytes); host query parameter absent, or one or two values of <= s+1 bytes each; query-token verdict arbitrary (verified in VP_C12_queryinfo) with subject <= s+1 bytes; user name of <= s+1 bytes with or without '@' (all strings printable ASCII without blanks); domain splitting, user-name template, no-username switches; token generators succeeding/failing
 //vp:reach served refused unauth
 func VP_C12_download() {
 	vpResetWeb()
@@ -197,6 +203,9 @@ func VP_C12_download() {
 				return "", errors.New("vp: query token refused")
 			}
 			qiSubject = vpString("qsubject", n+1)
+			for i := 0; i < len(qiSubject); i++ {
+				vpAssume(vpAnd(qiSubject[i] > 0x20, qiSubject[i] < 0x7f))
+			}
 			return qiSubject, nil
 		},
 		QueryTokenIssuer: "issuer-x",
@@ -205,6 +214,13 @@ func VP_C12_download() {
 		GatewayAddress:   &url.URL{Host: "gw.example:443"},
 		RdpOpts:          RdpOpts{SplitUserDomain: vpBool("split"), NoUsername: vpBool("nousername")},
 	}).NewHandler()
+	// ASCII only (strings.TrimSpace's Unicode path is outside the bound); values that do not fit on a line
+	// of a connection file (line breaks, blanks at the ends) are the subject of VP_C19_download_any_host
+	for _, x := range []string{user, qHost} {
+		for i := 0; i < len(x); i++ {
+			vpAssume(vpAnd(x[i] > 0x20, x[i] < 0x7f))
+		}
+	}
 	w := vpNewRW()
 	h.HandleDownload(w, vpRequest("GET", http.Header{}, id))
 	vpObserve("status", uint64(w.status))
